@@ -305,3 +305,7 @@ PROPS["C20"]["thorough"].append({"variant": "miri", "cases": 16, "params": {"pro
 PROPS["C11"]["quick"].append({"variant": "default", "cases": 3000, "params": {"renamed": 1}, "worker_prop": "C14", "timeout": 900})
 PROPS["C11"]["thorough"].append({"variant": "default", "cases": 100000, "params": {"renamed": 1, "case_timeout": 120}, "worker_prop": "C14", "timeout": 3400})
 PROPS["C11"]["floors"]["any"]["renamed_runs"] = 1500
+
+PROPS["C19"]["evaluations_from"] = ["sequences", "pairs", "triples", "random_sequences"]
+PROPS["C16"]["evaluations_from"] = ["nodes_checked"]
+PROPS["C10"]["evaluations_from"] = ["generator_sets", "histories_completed"]
